@@ -14,6 +14,7 @@ import (
 	"slices"
 	"strings"
 
+	"github.com/nspcc-dev/neo-go/pkg/core/transaction"
 	"github.com/nspcc-dev/neo-go/pkg/crypto/keys"
 	"github.com/nspcc-dev/neo-go/pkg/io"
 	"github.com/nspcc-dev/neo-go/pkg/util"
@@ -29,7 +30,7 @@ type C19Prop struct {
 	Lim     C19Lim  `json:"lim"` // small block limits (zero value: defaults)
 	Pools   [][]int `json:"pools"`
 	Victim  int     `json:"victim"`  // which of the primary's pending PrepareRequest copies is replaced
-	Corrupt string  `json:"corrupt"` // none | prevhash | version | stateroot | timestamp | toomany | unknowntx | overfull
+	Corrupt string  `json:"corrupt"` // none | prevhash | version | stateroot | timestamp | toomany | unknowntx | overfull | alteredwitness
 	Bit     int     `json:"bit"`     // which bit of the hash is flipped
 }
 
@@ -52,6 +53,15 @@ func c19GenProp(t *rapid.T) C19Prop {
 	}
 	c.Corrupt = rapid.SampledFrom(kinds).Draw(t, "corrupt")
 	c.Bit = rapid.IntRange(0, 255).Draw(t, "bit")
+	if c.Lim.Cap() == 0 && rapid.IntRange(0, 5).Draw(t, "altered_witness") == 0 {
+		// The proposal is genuine, but a peer answers the backup's request for a missing transaction with a copy
+		// whose witness is altered (same hash); the genuine copy arrives right after it. Only the proposer holds
+		// transactions, so that the backup has to fetch at least two.
+		c.Corrupt = "alteredwitness"
+		for j := range c.Pools {
+			c.Pools[j] = []int{0, 1, 2, 3}
+		}
+	}
 	return c
 }
 
@@ -63,12 +73,28 @@ func c19CheckProp(c C19Prop, o *vt.Obs) error {
 	if err != nil {
 		return fmt.Errorf("HARNESS: world: %w", err)
 	}
-	net, err := c19NewNet(w, c.Pools, nil, false, false, c.Lim)
+	pools := c.Pools
+	if c.Corrupt == "alteredwitness" {
+		// every node but the proposer of the first height starts with an empty pool
+		pools = make([][]int, len(c.Pools))
+		for j := range pools {
+			pools[j] = []int{}
+		}
+		prim := c19FirstPrimary(w, c.N)
+		if prim >= 0 && prim < len(pools) {
+			pools[prim] = c.Pools[prim]
+		}
+	}
+	net, err := c19NewNet(w, pools, nil, false, false, c.Lim)
 	defer net.close()
 	if err != nil {
 		return c19NetErr(net, err)
 	}
 	corrupt := c.Corrupt
+	var (
+		alteredHash util.Uint256
+		alteredInv  []byte
+	)
 	err = func() error {
 		if err := net.start(); err != nil {
 			return err
@@ -99,7 +125,7 @@ func c19CheckProp(c C19Prop, o *vt.Obs) error {
 		bit := c19Mod(c.Bit, 256)
 		corrupt = c.Corrupt
 		switch c.Corrupt {
-		case "none":
+		case "none", "alteredwitness":
 		case "prevhash":
 			req.prevHash[bit/8] ^= 1 << (bit % 8)
 		case "version":
@@ -189,7 +215,26 @@ func c19CheckProp(c C19Prop, o *vt.Obs) error {
 			if found < 0 {
 				break
 			}
-			if err := net.deliver(net.take(found)); err != nil {
+			fm := net.take(found)
+			if c.Corrupt == "alteredwitness" && fm.kind == c19MsgTx && alteredHash == (util.Uint256{}) {
+				// count the transaction copies still to come: the altered one must not be the last missing one
+				more := 0
+				for _, pm := range net.pending {
+					if pm.kind == c19MsgTx && pm.to == dst.idx {
+						more++
+					}
+				}
+				if tx, err := c19DecodeTx(fm.raw); err == nil && more > 0 && len(tx.Scripts) > 0 && len(tx.Scripts[0].InvocationScript) > 10 {
+					alt, _ := c19DecodeTx(fm.raw)
+					alt.Scripts[0].InvocationScript = slices.Clone(alt.Scripts[0].InvocationScript)
+					alt.Scripts[0].InvocationScript[5+bit%50] ^= 1 << (bit % 8)
+					alteredHash, alteredInv = tx.Hash(), alt.Scripts[0].InvocationScript
+					if err := net.deliver(&c19Msg{kind: c19MsgTx, from: fm.from, to: fm.to, raw: c19EncodeTx(alt), desc: "ALTERED WITNESS " + fm.desc}); err != nil {
+						return err
+					}
+				}
+			}
+			if err := net.deliver(fm); err != nil {
 				return err
 			}
 		}
@@ -199,6 +244,24 @@ func c19CheckProp(c C19Prop, o *vt.Obs) error {
 				if _, oi, err := net.decodeExt(out.raw); err == nil && (oi.typ == prepareResponseType || oi.typ == commitType) {
 					responded = true
 				}
+			}
+		}
+		if c.Corrupt == "alteredwitness" {
+			if alteredHash == (util.Uint256{}) {
+				o.Labelf("alteredwitness degraded: proposal of %d transactions, primary node %d", len(req.transactionHashes), c19FirstPrimary(w, c.N))
+				corrupt = "none" // fewer than two transactions were fetched: plain control
+			} else if held, ok := dst.srv.dbft.Transactions[alteredHash].(*transaction.Transaction); ok && responded &&
+				len(held.Scripts) > 0 && slices.Equal(held.Scripts[0].InvocationScript, alteredInv) {
+				o.Label("corrupt=alteredwitness")
+				return net.fail("backup %d answered the proposal with a PrepareResponse although the copy of transaction %s it holds for the block carries an altered witness (a peer sent it before the genuine copy arrived): the block it is going to sign is refused by every ledger, its own included",
+					dst.idx, alteredHash.StringLE())
+			} else {
+				o.Label("corrupt=alteredwitness")
+				o.NonTrivial()
+				if !responded {
+					o.Label("alteredwitness: proposal not answered")
+				}
+				return nil
 			}
 		}
 		o.Label("corrupt=" + corrupt)
@@ -228,4 +291,22 @@ func c19CheckProp(c C19Prop, o *vt.Obs) error {
 		o.NonTrivial()
 	}
 	return err
+}
+
+// c19FirstPrimary is the node (index into the wallets = committee keys) whose key is the primary of the first height
+// of a run at view 0: validators are ordered by public key, the primary is number (height mod N).
+func c19FirstPrimary(w *c19World, n int) int {
+	pubs := make(keys.PublicKeys, n)
+	for j := 0; j < n; j++ {
+		pubs[j] = ck.CommitteeKeys[j].Pub
+	}
+	sorted := slices.Clone(pubs)
+	slices.SortFunc(sorted, (*keys.PublicKey).Cmp)
+	p := sorted[int(w.baseH+1)%n]
+	for j := range pubs {
+		if pubs[j].Equal(p) {
+			return j
+		}
+	}
+	return -1
 }
